@@ -340,7 +340,9 @@ def loop_progress(chk: Check) -> None:
                     else:
                         chk.fail(rule, inst, f"{mod}.{fn.name}:while-without-progress", "a while loop on the parse path has a path back to its condition on which neither a counter of the condition is stepped nor input is consumed (with an exit at end of input): malformed or truncated input can make it spin forever")
     if n == 0:
-        raise AnalysisError("C17: no while loop found on the parse path (frame_iterator anchor vanished)")
+        # the frame loop may be written without `while` (takewhile/iter(callable, sentinel)/recursion-free generators):
+        # nothing to judge syntactically; termination at end of input is decided on the traces below
+        chk.ok(rule, "no while loop on the parse path", {"loops": 0}, nontrivial=False)
     # termination at EOF: the frame iterator ends when the source is exhausted (0, 1, 3 frames)
     for nframes in (0, 1, 3):
 
